@@ -133,6 +133,10 @@ def unit_C02(src, model='R', dims=(2, 3, 4)):
              Sel('Transform', c_matrix.MAT, ['inverse_transform', 'inverse_transform_vector', 'concat_self'], trait_args=r'Point3<S>'))
     u.free_fns.append(('matrix', 'det_sub_proc_unsafe'))
     add_laws(u, c_matrix.laws_c02(F, dims))
+    own = lambda im, f: (im is None and f.name == 'det_sub_proc_unsafe') or (im is not None and (
+        f.name in ('determinant', 'invert', 'inverse_transform', 'inverse_transform_vector', 'concat_self', 'transpose', 'truncate_n', 'row')
+        or (im.module == 'matrix' and trait_name_of(im) == 'Mul')))
+    u.assume_pred = lambda im, f: not own(im, f)
     return u
 
 
@@ -147,6 +151,7 @@ def unit_C04(src, model='R'):
     u.assume_pred = lambda im, f: not own(im, f)
     u.lemma_texts.append(sym.HELPER_LEMMAS)
     add_laws(u, c_quat.laws(F))
+    u.lemma_texts.append(c_quat.handwritten_laws())
     return u
 
 
